@@ -138,6 +138,16 @@ func newRichDoc(c *fw.Case) *richDoc {
 		cube[i] = plane
 	}
 	doc["cube"] = cube
+	// a table with NULL elements between its rows
+	nn := []any{nil}
+	for i := 0; i < 1+c.Intn(3); i++ {
+		nn = append(nn, map[string]any{"rid": float64(i), "n1": float64(c.Intn(5))})
+		if c.Chance(0.6) {
+			nn = append(nn, nil)
+		}
+	}
+	nn = append(nn, map[string]any{"rid": 9.0, "n1": 1.0})
+	doc["nn"] = nn
 	doc["meta"] = map[string]any{"ip": "127.0.0.1", "n": float64(c.Intn(9))}
 	return &richDoc{doc: doc, t: t, u: u}
 }
@@ -323,6 +333,14 @@ var richForms = []richForm{
 		// top-level selector functions over arrays that live in the document
 		return gen.Pick(c.R, []string{"SELECT rid, `distinct=>tags` AS t FROM t1", "SELECT rid FROM t1 WHERE `distinct=>tags` IS NOT NULL", "SELECT rid, `distinct=>tags[(0:3)]` AS t FROM t1",
 			"SELECT rid, `mix=>arr` AS m, `distinct=>tags` AS t FROM t1", "SELECT rid, FIRST(`distinct=>tags`) AS f, LAST(`distinct=>tags`) AS l FROM t1", "SELECT rid, `distinct=>obj.tags` AS t FROM t1"})
+	}},
+	{"plain.fuse-first", false, false, func(c *fw.Case, d *richDoc, vf string) string {
+		// FUSE of a document object in first position, followed by further columns
+		return gen.Pick(c.R, []string{"SELECT FUSE(obj), rid FROM t1", "SELECT FUSE(obj), * FROM t1", "SELECT FUSE(obj), n1 AS k, s1 FROM t1 WHERE n1 >= 0", "SELECT FUSE(`<-meta`), rid FROM t1", "SELECT FUSE(obj), (SELECT e FROM arr) AS es FROM t1"})
+	}},
+	{"plain.null-rows", false, true, func(c *fw.Case, d *richDoc, vf string) string {
+		// a source array with NULL elements, read with and without an alias and as a join operand
+		return gen.Pick(c.R, []string{"SELECT * FROM nn x", "SELECT * FROM nn", "SELECT x.rid FROM nn x WHERE x.n1 >= 0", "SELECT * FROM nn x JOIN u1 y ON x.n1 = y.un1", "SELECT * FROM t1 x LEFT JOIN nn y ON x.rid = y.rid", "SELECT q.rid FROM (SELECT * FROM nn) q"})
 	}},
 	{"plain.join-unaliased", false, true, func(c *fw.Case, d *richDoc, vf string) string {
 		// outer joins whose preserved side is read straight from the document, without an alias
